@@ -220,6 +220,26 @@ def check_list(ctx, inst, rng, ports, kinds):
             ctx.violation("board listing is not the in-order filter of the enumeration",
                           dict(witness, function=label, returned=got, expected=want_list))
 
+    # the caller owns what it got: editing a returned list must not change later answers
+    for label, fn in (("ebb_serial.listEBBports", legacy.listEBBports), ("ebb3_serial.list_ebb_ports", ebb3.list_ebb_ports)):
+        okx, got = call(ctx, witness, label, fn)
+        if okx and isinstance(got, list):
+            got.clear()
+            okx2, again = call(ctx, witness, label, fn)
+            ctx.count("monitor:return values checked")
+            ctx.tag("history: listing asked again after the caller emptied the returned list")
+            if okx2 and (again if again is None else [(p[0], p[1], p[2]) for p in again]) != want_list:
+                ctx.violation("board listing changed after the caller edited an earlier result",
+                              dict(witness, function=label, returned=again, expected=want_list))
+    if rng.random() < 0.05:
+        # a call the caller gets wrong and survives
+        for bad in (5, b"COM3", ["x"], object()):
+            for finder in (legacy.find_named_ebb, ebb3.find_named):
+                try:
+                    finder(bad)
+                except Exception:
+                    pass
+        ctx.tag("history: after failed lookups (non-string names)")
     # --- names + lookups ---
     ok, names_l = call(ctx, witness, "ebb_serial.list_named_ebbs", legacy.list_named_ebbs)
     ok3, names_3 = call(ctx, witness, "ebb3_serial.list_named_ebbs", ebb3.list_named_ebbs)
@@ -327,6 +347,8 @@ def run(ctx):
         ctx.need(cls, 100)
     ctx.need("monitor:return values checked", 50000)
     ctx.need("history: empty list on a re-used object", 200)
+    ctx.need("history: listing asked again after the caller emptied the returned list", 2000)
+    ctx.need("history: after failed lookups (non-string names)", 100)
     ctx.need("history: object re-used after a list with a board", 1000)
     ctx.need("monitor:layer agreement checked", 5000)
 
